@@ -69,7 +69,14 @@ Definition print_fam (nm : string) (arg v : sx) : option (res str) :=
   | SN _, SBytes bs => if is "bits" then Some (Ok (print_bytes_hex bs))
                        else if is "tonbits" then Some (Ok (print_bytes_hex bs))
                        else if is "tlint" then Some (print_tl_int256 bs)
-                       else if is "cell" then Some (print_cell (fun b => Ok b) bs)
+                       else if is "cell" then
+                         (* the case carries the serialiser's bytes; the C01 hypothesis of
+                            C20_cell_roundtrip (they parse back to exactly one root) is
+                            checked on them instead of being assumed *)
+                         Some (print_cell (fun b => match deser_roots b with
+                                                    | Ok [_] => Ok b
+                                                    | _ => Err EOther
+                                                    end) bs)
                        else None
   | SN free, SBits b =>
       (* the argument is the number of free bits of the writer's buffer: the
